@@ -1,7 +1,9 @@
+mod alloc;
 mod canon;
 mod check;
 mod exec;
 mod gen;
+mod hostile;
 mod lean;
 mod rng;
 mod tables;
@@ -9,11 +11,37 @@ mod transport;
 
 use std::io::BufRead;
 
+#[global_allocator]
+static GLOBAL: alloc::Counting = alloc::Counting;
+
+/// operations run on a thread with the default stack of a spawned Rust thread (2 MiB): a library must not need more than
+/// what a thread gets by default for a 64 KiB reply
+const STACK: usize = 2 << 20;
+
 fn main() {
+    // watchdog: an operation that runs for more than KH_OP_TIMEOUT seconds (default 60) counts as "loops forever"
+    let limit: u64 = std::env::var("KH_OP_TIMEOUT").ok().and_then(|s| s.parse().ok()).unwrap_or(60);
+    std::thread::spawn(move || loop {
+        std::thread::sleep(std::time::Duration::from_millis(500));
+        let t = exec::OP_STARTED.load(std::sync::atomic::Ordering::Relaxed);
+        if t != 0 && exec::now_ms().saturating_sub(t) > limit * 1000 {
+            eprintln!("watchdog: operation exceeded {} s", limit);
+            std::process::exit(98);
+        }
+    });
+    let h = std::thread::Builder::new().stack_size(STACK).spawn(real_main).unwrap();
+    match h.join() {
+        Ok(code) => std::process::exit(code),
+        Err(_) => std::process::exit(101),
+    }
+}
+
+fn real_main() -> i32 {
     let args: Vec<String> = std::env::args().collect();
     match args.get(1).map(|s| s.as_str()) {
         Some("run") => {
             // run a scenario file: prints the trace and the mismatches
+            exec::install_panic_hook();
             let world = transport::new_world();
             let mut sess = exec::Session::new(world.clone());
             let f = std::fs::File::open(&args[2]).expect("scenario file");
@@ -28,7 +56,7 @@ fn main() {
             for m in &ms {
                 println!("{}", m);
             }
-            std::process::exit(if ms.is_empty() { 0 } else { 1 });
+            return if ms.is_empty() { 0 } else { 1 };
         }
         Some("dump") => {
             // kharness dump <prop> <seed> <n> <dir>: write the first n generated scenarios as files
@@ -36,6 +64,9 @@ fn main() {
             let seed: u64 = args[3].parse().unwrap();
             let n: u64 = args[4].parse().unwrap();
             let gen = check::generator(prop).expect("no generator");
+            exec::install_panic_hook();
+            let world = transport::new_world();
+            check::GEN_WORLD.with(|w| *w.borrow_mut() = Some(world.clone()));
             let mut rng = rng::Rng::new(seed);
             let mut dist = std::collections::BTreeMap::new();
             std::fs::create_dir_all(&args[5]).unwrap();
@@ -44,6 +75,12 @@ fn main() {
                 let sc = gen(&mut r, &mut dist, i);
                 std::fs::write(format!("{}/{:04}.txt", args[5], i), sc.join("\n") + "\n").unwrap();
             }
+        }
+        Some("bomb") => {
+            // kharness bomb [MiB]: the nested decompression bomb, observed on the real client
+            let mib: usize = args.get(2).and_then(|s| s.parse().ok()).unwrap_or(1100);
+            let (n, biggest, text) = tables::bomb(mib);
+            println!("BOMB reply_bytes={} largest_allocation_request={} result={}", n, biggest, text);
         }
         Some("errtable") => {
             print!("{}", tables::error_table_lean());
@@ -66,13 +103,14 @@ fn main() {
                 }
             }
             // panics inside the crate are expected outcomes in some scenarios: keep stderr quiet
-            std::panic::set_hook(Box::new(|_| {}));
+            exec::install_panic_hook();
             let rep = check::run(prop, tier, seed, &corpus);
             println!("{}", check::report_json(prop, &rep));
         }
         _ => {
             eprintln!("usage: kharness run <scenario> [props] | check <prop> <tier> <seed> [corpus-dir]");
-            std::process::exit(2);
+            return 2;
         }
     }
+    0
 }
